@@ -2,7 +2,8 @@
 (* Batch trace validation for Router.tla.  TRACE_FILE holds a JSON array of traces
      { "accept": {devId: name | "*"}, "ev": [ event, ... ] }
    event = { "op": "regdev"|"regcli"|"unreg"|"msg", args..., observations after the step:
-             "devs": [..], "clients": [..], "pol": [[c, n, v], ..], "dlv": [["dev"|"cli", id], ..] }
+             "devs": [..], "clients": [..], "pol": [[c, n, v], ..], "dlv": [["dev"|"cli", id], ..],
+             "subs": [ {s, k, n, dlv}, .. ]  (messages sent by endpoints from inside their callbacks while this one was in flight) }
    Each event must be explained by the Router action of that name with the logged arguments, the
    projected post-state must equal the primed variables, and every declarative property of
    Router.tla must hold on the step. *)
@@ -35,6 +36,16 @@ ObsOK == IF Which = "C04"
          ELSE /\ clients' = Ev.clients
               /\ PolTriples(policy') = Range(Ev.pol)
               /\ BagEq(CliPart(dlv'), CliPart(Ev.dlv))
+\* Re-entrancy: an endpoint may call the router from inside its own callback (a driver answers from message_from_client, a
+\* snooping client sends from message_from_device).  Every such nested message (Ev.subs: sender, kind, name, its own deliveries)
+\* must be routed exactly like a message processed on its own in this state, and must not disturb the one in flight.
+HasSubs == Ev.op = "msg" /\ "subs" \in DOMAIN Ev
+SubsOK == HasSubs =>
+  \A i \in DOMAIN Ev.subs : LET sb == Ev.subs[i] IN
+     IF Which = "C04"
+     THEN /\ BagEq([j \in DOMAIN ToDevOf(devs', sb.s, sb.k, sb.n) |-> <<"dev", ToDevOf(devs', sb.s, sb.k, sb.n)[j]>>], DevPart(sb.dlv))
+          /\ (FromClient(sb.k) /\ sb.k # "getProperties" => CliPart(sb.dlv) = <<>>)
+     ELSE BagEq([j \in DOMAIN ToCliOf(clients', policy', sb.s, sb.k, sb.n) |-> <<"cli", ToCliOf(clients', policy', sb.s, sb.k, sb.n)[j]>>], CliPart(sb.dlv))
 PropsOK == IF Which = "C04" THEN ToDevices /\ NoLeak /\ MsgKeepsRegistry
            ELSE FanOut /\ Independence /\ EnableTakesEffect /\ Forgotten /\ Fresh /\ MsgKeepsRegistry
 
@@ -47,6 +58,7 @@ Step == /\ l <= Len(Tr.ev)
         /\ Ev.raised = ""          \* nothing may be raised out of the router
         /\ ObsOK
         /\ PropsOK
+        /\ SubsOK
 
 TraceSpec == TraceInit /\ [][Step]_<<vars, tid, l>>
 
